@@ -116,14 +116,16 @@ func (lc *listCore) list(s core.Step) any {
 	if same {
 		for i := range al {
 			x, y, z := al[i].([]any), bl[i].([]any), cl[i].([]any)
-			if core.J(x) != core.J(y) || core.J(x[0]) != core.J(z[0]) {
+			// an entry whose value is empty cannot name its key in the values-only encoding
+			emptyBoth := core.J(y[1]) == `"garbage-or-empty"` && len(x) == 2 && core.J(x[1]) == "-1"
+			if (core.J(x) != core.J(y) && !emptyBoth) || core.J(y[0]) != core.J(z[0]) {
 				same = false
 				break
 			}
 		}
 	}
 	if same {
-		return al
+		return bl
 	}
 	return map[string]any{"encodings-disagree": true, "val": a, "kv": b, "key": c}
 }
@@ -455,7 +457,10 @@ func listDiff(prefix []int, exp, obs any) string {
 				}
 				return "extra-entry:outside-prefix"
 			}
-			return "extra-entry:inside-prefix(deleted,hidden,before-continuation-key-or-beyond-count)"
+			if core.J(op[1]) == `"garbage-or-empty"` {
+				return "extra-entry:deleted-marker-listed"
+			}
+			return "extra-entry:inside-prefix(hidden,before-continuation-key-or-beyond-count)"
 		}
 		if i < len(e) {
 			ep, _ := e[i].([]any)
